@@ -222,6 +222,16 @@ class Runner(object):
         a = getattr(c, 'archive', None)
         if a is None or a is c:
             return {}
+        if a is self.arch_obj and gen.persistent(self.backend) and not getattr(self, 'swapped', False):
+            # what the *store* holds, read through a handle of our own (a handle that serves a remembered copy,
+            # or hides what another live instance wrote, must not be able to fool the monitors)
+            h = gen.build_archive(klepto, self.backend, self.root)
+            try:
+                return gen.contents(h)
+            finally:
+                conn = getattr(h, '_conn', None)
+                if conn is not None:
+                    conn.close()
         return gen.contents(a)
 
     def arch_any(self):
@@ -391,6 +401,7 @@ class Runner(object):
             new = klepto._archives.dict_archive()
             f.archive(new)
             self.arch_obj = new
+            self.swapped = True      # from now on the attached archive is an in-memory one, not the store
             self.assigned = new
             self.retr.clear()   # the user replaced the archive: nothing is owed from the old one
         elif kind == 'overfill':
@@ -412,6 +423,8 @@ class Runner(object):
             return self.do_introspect(i, op, s0)
         elif kind == 'reopen':
             return self.do_reopen(i, op, s0)
+        elif kind == 'switch':
+            return self.do_switch(i, op, s0)
         else:
             raise ValueError('unknown op %r' % (op,))
         s1 = self.snapshot()
@@ -854,12 +867,45 @@ class Runner(object):
         return self.summarize(op, outcome, s1)
 
     # -- second instance on the same archive ------------------------------------------------------
+    def do_switch(self, i, op, s0):
+        """two *simultaneously live* instances (own function object, own in-memory cache, own handle) on one
+        persistent archive: park the current one and continue with the other"""
+        cur = {'f': self.f, 'probe': self.probe, 'arch_obj': self.arch_obj, 'deco': getattr(self, 'deco', None),
+               'swapped': getattr(self, 'swapped', False),
+               'last_use': self.last_use, 'uses': self.uses, 'tracked': self.tracked, 'retr': self.retr,
+               'assigned': self.assigned}
+        other = getattr(self, 'parked', None)
+        self.parked = cur
+        if other is None:
+            self.arch_obj = gen.build_archive(klepto, self.backend, self.root)
+            self.swapped = False
+            self.probe = gen.Probe(self.case['sig'], self.rmode)
+            self.assigned = None
+            self._decorate()
+            self.last_use, self.uses, self.tracked, self.retr = {}, {}, set(), {}
+        else:
+            self.f, self.probe, self.arch_obj, self.deco = other['f'], other['probe'], other['arch_obj'], other['deco']
+            self.last_use, self.uses, self.tracked, self.retr = other['last_use'], other['uses'], other['tracked'], other['retr']
+            self.assigned = other['assigned']
+            self.swapped = other['swapped']
+        # whatever has reached the (shared) archive is owed to this instance too - if its archive is attached
+        if self.f.archived() and getattr(self.cache(), 'archive', None) is self.arch_obj:
+            for k, v in self.arch_any().items():
+                self.retr.setdefault(skey(k), v)
+                self.seen.setdefault(skey(k), k)
+        else:
+            self.retr.clear()
+        self.note('instance_switches')
+        s1 = self.snapshot()
+        return self.summarize(op, None, s1)
+
     def do_reopen(self, i, op, s0):
         b = self.backend
         self.gen += 1
         self.assigned = None
         if b['kind'] not in ('dict', 'null', 'dict_archive') and not b.get('memory'):
             self.arch_obj = gen.build_archive(klepto, b, self.root)   # a new handle
+            self.swapped = False
         old_log = self.probe.log
         self.probe = gen.Probe(self.case['sig'], self.rmode)          # a fresh function object
         # a new instance does not inherit memory: only archived results stay retrievable
@@ -1101,6 +1147,8 @@ def gen_mgmt(rng, focus, cfg, pool, has_arch):
                     ['archived', 1], ['reopen']]
         if focus in ('C02', 'C07'):
             choices += [['swaparchive'], ['archived', 0]]
+        if focus in ('C01', 'C02', 'C07') and gen.persistent(cfg['backend']):
+            choices += [['switch'], ['switch'], ['switch']]
         if focus in ('C01', 'C02', 'C05', 'C15', 'C07'):
             part = rng.sample(pool, max(1, int(len(pool) * rng.choice([0.4, 0.6, 1.0]))))
             choices += [['load'], ['load'], ['archfill', [[enc(c[0]), enc(c[1])] for c in part]],
